@@ -138,6 +138,8 @@ func checkC01(c *Ctx) {
 	if c.Contrib == "" {
 		checkGeneratedCalls(c, "C01.R12.generated-calls", ev)
 		checkPointerMarkers(c, "C01.R12.pointer-markers", ev)
+		// a package the generated code refers to and nothing imports compiles only if goimports finds it
+		checkImportsExplicit(c, "C01.R16.imports-explicit", gen)
 	}
 	checkVersionedImports(c, "C01.R14.versioned-imports", gen)
 
